@@ -599,11 +599,40 @@ fn main() {
     let mut cases = 0u64;
     let mut nonempty = 0u64;
     let mut distinct: std::collections::HashSet<u64> = Default::default();
+    // watchdog: a case that does not finish within the limit is a hang of the code under test (C08) - it is reported
+    // as a mismatch of that very case, the run ends there (the remaining cases are not explored)
+    let current: std::sync::Arc<std::sync::Mutex<(std::time::Instant, String, u64)>> =
+        std::sync::Arc::new(std::sync::Mutex::new((std::time::Instant::now(), String::new(), 0)));
+    {
+        let current = current.clone();
+        let limit = std::env::var("VERIF_CASE_TIMEOUT").ok().and_then(|v| v.parse().ok()).unwrap_or(45u64);
+        std::thread::spawn(move || loop {
+            std::thread::sleep(std::time::Duration::from_secs(1));
+            let (started, line, n) = { let g = current.lock().unwrap(); (g.0, g.1.clone(), g.2) };
+            if !line.is_empty() && started.elapsed().as_secs() > limit {
+                let v: Value = serde_json::from_str(&line).unwrap_or(Value::Null);
+                let q = serde_json::from_value::<Cps>(v["q"].clone()).map(|c| cps_to_string(&c)).unwrap_or_default();
+                let o = std::io::stdout();
+                let mut o = o.lock();
+                let _ = writeln!(o, "{}", json!({"kind":"mismatch","check":"hang","repr":"Value","id":v["id"],"q":q,
+                    "doc": serde_json::from_value::<SVal>(v["doc"].clone()).map(|d| d.to_j().to_value()).unwrap_or(Value::Null),
+                    "what": format!("the code under test did not return within {limit} s on this case (hang or pathological slowness)")}));
+                let _ = writeln!(o, "{}", json!({"kind":"summary","cases":n,"nonempty_expect":n,"distinct":n,"mismatches":1,"checks":{"aborted_by_watchdog":1}}));
+                let _ = o.flush();
+                std::process::exit(0);
+            }
+        });
+    }
     for line in stdin.lock().lines() {
         let line = line.expect("read");
         if line.trim().is_empty() {
             continue;
         }
+        {
+            let mut g = current.lock().unwrap();
+            *g = (std::time::Instant::now(), line.clone(), cases);
+        }
+        w.flush().unwrap();
         if line.contains("\"mode\":\"session\"") {
             let c: SessionCase = match serde_json::from_str(&line) {
                 Ok(c) => c,
